@@ -312,7 +312,7 @@ pub fn run(ctx: &RunCtx) -> i32 {
                 }
             }
             let ties: Vec<u64> = ties.into_iter().collect();
-            let take = if thorough { ties.len() } else { 4 };
+            let take = if thorough { 10 } else { 4 };
             for st in ties.into_iter().take(take) {
                 jobs.push((cfg.clone(), 2, st, false, if thorough { 13 } else { 10 }, TimeDetail::Medium));
                 jobs.push((cfg.clone(), 3, st, false, if thorough { 12 } else { 9 }, TimeDetail::Coarse));
@@ -331,7 +331,7 @@ pub fn run(ctx: &RunCtx) -> i32 {
             let mut mon = Mon::new(4, *s1, true, TimeDetail::Coarse);
             mon.stagger2_ms = *s2;
             let mut r = Report::new();
-            let st = bfs(&cfg, &apps, &mon, if thorough { 16 } else { 14 }, if thorough { 2_000_000 } else { 400_000 }, &mut r);
+            let st = bfs(&cfg, &apps, &mon, if thorough { 15 } else { 14 }, if thorough { 1_000_000 } else { 400_000 }, &mut r);
             r.states = st.states;
             r.transitions = st.transitions;
             r.sym("history-before-the-request");
